@@ -114,6 +114,7 @@ class History(RuleBasedStateMachine):
         self.tables = tables_snapshot(self.a)
         self.pool = []
         self.returned = []    # (labels dict, constants dict, snapshot of both) handed back by earlier calls
+        self.reusable = []    # (program, incdirs, labels, constants) of successful fresh-dict calls that nobody scribbled into
         self.calls = []
         self.distinct = set()
         self.fail_before_success = False
@@ -141,7 +142,7 @@ class History(RuleBasedStateMachine):
                 f.write(text)
             self.paths.append(p)
 
-    def _call(self, i, compress, mode, incdirs=False):
+    def _call(self, i, compress, mode, incdirs=False, reuse_from=None):
         text = self.pool[i % len(self.pool)]
         src = self.paths[i % len(self.pool)]
         include_dirs = [os.path.join(self.dir, 'defs')] if incdirs else None
@@ -149,9 +150,17 @@ class History(RuleBasedStateMachine):
             lin, cin = None, None
         elif mode == 'fresh':
             lin, cin = {}, {}
+        elif mode == 'reuse':
+            # the very dictionaries an earlier successful call of the SAME program filled (a build loop that keeps one
+            # labels / constants dict): every name in them is defined by the program itself, so the result must be the one
+            # obtained with fresh dictionaries
+            lin, cin = reuse_from
         else:
             lin, cin = {'test': 0, 'near': 0, 'far': 0x20000000}, {'PRESET': 7}
-        ref = fresh(src, compress, copy.deepcopy(lin), copy.deepcopy(cin), include_dirs, text)
+        if mode == 'reuse':
+            ref = fresh(src, compress, {}, {}, include_dirs, text)
+        else:
+            ref = fresh(src, compress, copy.deepcopy(lin), copy.deepcopy(cin), include_dirs, text)
         kw = {'compress': compress}
         if include_dirs is not None:
             kw['include_dirs'] = include_dirs
@@ -166,6 +175,8 @@ class History(RuleBasedStateMachine):
         except Exception as e:
             got = {'ok': False, 'type': type(e).__name__, 'message': str(e), 'line': None}
         key = (i % len(self.pool), compress, mode, incdirs)
+        if mode == 'reuse':
+            self.count_reuse = getattr(self, 'count_reuse', 0) + 1
         if key in [c[0] for c in self.calls]:
             self.repeated = True
         self.calls.append((key, got['ok']))
@@ -180,8 +191,14 @@ class History(RuleBasedStateMachine):
                                   'call %r after history %r gives\n  %s\nbut a fresh interpreter gives\n  %s\n--- source\n%s' % (
                                       key, hist[:-1][-8:], json.dumps(got)[:400], json.dumps(ref)[:400], text[:500]),
                                   {'kind': 'history', 'pool': self.pool, 'calls': [list(k) for k, _ in self.calls]})
-        if lin is not None:
+        if mode == 'reuse':
+            for r in self.returned:
+                if r[0] is lin:
+                    r[2], r[3] = copy.deepcopy(lin), copy.deepcopy(cin)   # the caller handed them in again: changes are expected
+        elif lin is not None:
             self.returned.append([lin, cin, copy.deepcopy(lin), copy.deepcopy(cin)])
+            if mode == 'fresh' and got['ok']:
+                self.reusable.append((i % len(self.pool), incdirs, lin, cin))
 
     @rule(i=st.integers(0, 5), compress=st.booleans(), mode=st.sampled_from(['none', 'fresh', 'preset']), incdirs=st.booleans())
     def assemble(self, i, compress, mode, incdirs):
@@ -191,12 +208,21 @@ class History(RuleBasedStateMachine):
     @rule(k=st.integers(0, 50))
     def reassemble_earlier(self, k):
         key = self.calls[k % len(self.calls)][0]
+        if key[2] == 'reuse':
+            key = (key[0], key[1], 'fresh', key[3])
         self._call(*key)
+
+    @precondition(lambda self: len(self.reusable) > 0)
+    @rule(k=st.integers(0, 50), compress=st.booleans())
+    def assemble_again_with_the_same_dicts(self, k, compress):
+        i, incdirs, lin, cin = self.reusable[k % len(self.reusable)]
+        self._call(i, compress, 'reuse', incdirs, reuse_from=(lin, cin))
 
     @precondition(lambda self: len(self.returned) > 0)
     @rule(k=st.integers(0, 50), name=st.sampled_from(S.LABEL_NAMES[:8] + S.CONST_NAMES[:8]), v=st.integers(-5, 5000))
     def scribble(self, k, name, v):
         r = self.returned[k % len(self.returned)]
+        self.reusable = [x for x in self.reusable if x[2] is not r[0]]
         r[0][name] = v
         r[1][name] = v + 1
         r[2], r[3] = copy.deepcopy(r[0]), copy.deepcopy(r[1])
@@ -223,6 +249,7 @@ class History(RuleBasedStateMachine):
             _stats.count('calls', len(self.calls))
             if len(self.distinct) >= 2 and self.fail_before_success and self.repeated:
                 _stats.nt(env.chash((self.pool, self.calls)))
+            _stats.count('calls_reusing_dicts', getattr(self, 'count_reuse', 0))
             if _stats.evaluations % 13 == 1:
                 _stats.sample({'calls': [list(k) + [ok] for k, ok in self.calls[:12]], 'first_program': self.pool[0][:200] if self.pool else None})
 
@@ -318,7 +345,7 @@ def run(tier):
     chk.merge(env.run_shards(_dispatch, jobs))
     chk.rule = ('Hypothesis RuleBasedStateMachine: a pool of 3-6 generated programs over a shared small name space (some with a planted fault, some '
                 'using a name only another program defines); rules: assemble(program, compress, no dicts / fresh dicts / pre-populated dicts), '
-                're-assemble an earlier call, scribble into dictionaries handed back earlier; <= 30 steps. Every in-history result (bytes, labels, '
+                're-assemble an earlier call, assemble the same program again with the very dictionaries an earlier call filled, scribble into dictionaries handed back earlier; <= 30 steps. Every in-history result (bytes, labels, '
                 'constants or exception type+message+line) must equal the result of ONE FRESH INTERPRETER per (program, options) started with a '
                 'different PYTHONHASHSEED; dictionaries returned earlier are never mutated by later calls; module tables unchanged after every '
                 'step. Plus command-line runs of generated files under 4 hash seeds. non-trivial = history with >= 2 distinct programs, a '
@@ -340,7 +367,13 @@ def replay(path):
     try:
         try:
             for key in c['calls']:
-                m._call(*key)
+                if key[2] == 'reuse':
+                    cand = [x for x in m.reusable if x[0] == key[0] and x[1] == key[3]]
+                    if not cand:
+                        continue
+                    m._call(key[0], key[1], 'reuse', key[3], reuse_from=(cand[-1][2], cand[-1][3]))
+                else:
+                    m._call(*key)
                 m.earlier_results_untouched()
                 m.module_tables_unchanged()
         finally:
